@@ -208,12 +208,18 @@ def gen_args(rng: random.Random, entries: dict[str, Any]) -> list[str]:
             d = rng.choice(["."] + ok_dirs + ["."])
             if d != "." and rng.random() < 0.2:
                 d = "./" + d
+            elif d != "." and rng.random() < 0.15:
+                d = d + "/"  # trailing slash
+            elif rng.random() < 0.1:
+                d = "ABS:" + ("" if d == "." else d)  # absolute path (substituted at run time)
             args.append(d)
         elif k == "file" and files:
             f = rng.choice(files)
             if any(c in f for c in "*?["):
                 continue  # would be taken for a glob pattern
-            if rng.random() < 0.15:
+            if rng.random() < 0.08:
+                f = "ABS:" + f
+            elif rng.random() < 0.15:
                 f = "./" + f
             elif rng.random() < 0.1 and "/" in f:
                 d_ = os.path.dirname(f)
@@ -392,6 +398,8 @@ class Ref:
                 out[rp] = (cls, reason, kind)
 
         for a in args:
+            if a.startswith("ABS:"):
+                a = os.path.join(self.root, a[4:]) if a[4:] else self.root
             full = os.path.normpath(os.path.join(self.root, a))
             if os.path.isfile(full):
                 self._explicit(a, full, put)
